@@ -8,6 +8,7 @@ import (
 	"path/filepath"
 	"runtime/debug"
 	"sort"
+	"strconv"
 	"strings"
 	"sync"
 	"testing"
@@ -565,6 +566,39 @@ var c07BugOps = []c07Op{
 		h.Packs = append(h.Packs, merge)
 		return true
 	}},
+	{"commit/clocks-far-ahead-then-backwards", true, func(h *history, j, i int, env *c07Env) bool {
+		// every commit carries times 5000 ahead of what the local repository has seen (the root has no parent to
+		// be compared with, so the early commits are fine on their own), and the last commit goes back in time:
+		// the history is refused as a whole, and a refused history must not leave its times in the local clocks
+		if len(h.Packs) < 2 {
+			return false
+		}
+		shift := func(name, prefix string, by uint64) string {
+			v, err := strconv.ParseUint(strings.TrimPrefix(name, prefix), 10, 64)
+			if err != nil {
+				return name
+			}
+			return prefix + strconv.FormatUint(v+by, 10)
+		}
+		for n := range h.Packs {
+			for k := range h.Packs[n].Entries {
+				name := h.Packs[n].Entries[k].Name
+				switch {
+				case strings.HasPrefix(name, "edit-clock-"):
+					h.Packs[n].Entries[k].Name = shift(name, "edit-clock-", 5000)
+				case strings.HasPrefix(name, "create-clock-"):
+					h.Packs[n].Entries[k].Name = shift(name, "create-clock-", 5000)
+				}
+			}
+		}
+		last := &h.Packs[len(h.Packs)-1]
+		for k := range last.Entries {
+			if strings.HasPrefix(last.Entries[k].Name, "edit-clock-") {
+				last.Entries[k].Name = "edit-clock-2"
+			}
+		}
+		return true
+	}},
 	{"commit/foreign-history-as-parent", true, func(h *history, j, i int, env *c07Env) bool {
 		// the head gets a second parent that belongs to another bug
 		if env.foreignHead == "" {
@@ -918,6 +952,12 @@ func runC07(tb report.TB, rep *report.Reporter, c c07Case) {
 	rep.Case(fmt.Sprintf("%s|%s|%s|%s", c.Operator, posClass, c.Situation, c.Layer), c.Situation != "absent",
 		[]string{"operator:" + c.Operator, "situation:" + c.Situation, "layer:" + c.Layer, "position:" + posClass, "expect:" + verdict}, c)
 
+	clocks0 := map[string]uint64{}
+	if cl, err := repo.AllClocks(); err == nil {
+		for n, x := range cl {
+			clocks0[n] = uint64(x.Time())
+		}
+	}
 	// ---- stage 1: the same data stored under a local ref must be reported as an error when read, never crash
 	validName := entity.Id(mut.RefName).Validate() == nil
 	if validName {
@@ -944,6 +984,18 @@ func runC07(tb report.TB, rep *report.Reporter, c c07Case) {
 		if op.Must && rerr == nil && got != nil && opFamily(c.Operator) != "ref" {
 			if fail("corrupt-local-data-read-without-error/"+c.Operator, fmt.Sprintf("bug.Read + Validate accepted the data; operations: %v", opIdsOf(got))) {
 				return
+			}
+		}
+	}
+
+	if strings.HasPrefix(c.Operator, "commit/clocks-far-ahead") {
+		if cl, err := repo.AllClocks(); err == nil {
+			for n, x := range cl {
+				if v, ok := clocks0[n]; ok && uint64(x.Time()) > v {
+					if fail("clocks-moved-by-refused-data/local-read", fmt.Sprintf("%s: %d -> %d after reading a history that was refused", n, v, x.Time())) {
+						return
+					}
+				}
 			}
 		}
 	}
@@ -1081,6 +1133,15 @@ func runC07(tb report.TB, rep *report.Reporter, c c07Case) {
 		if panicked != "" || rerr != nil || got == nil {
 			if fail("accepted-data-is-not-a-valid-entity/"+c.Operator, fmt.Sprintf("report: %s; read: %v %s", describe, rerr, panicked)) {
 				return
+			}
+		}
+	}
+	if cl, err := repo.AllClocks(); err == nil && strings.HasPrefix(c.Operator, "commit/clocks-far-ahead") {
+		for n, v := range clocksBefore {
+			if x, ok := cl[n]; ok && uint64(x.Time()) > v+2 {
+				if fail("clocks-moved-by-refused-data/merge", fmt.Sprintf("%s: %d -> %d after a merge that refused the remote history", n, v, x.Time())) {
+					return
+				}
 			}
 		}
 	}
